@@ -317,7 +317,7 @@ func genC01(c *Ctx) {
 	i := 0
 	for _, typ := range msgTypes {
 		for _, dotu := range []bool{false, true} {
-			for k := 0; k < rounds; k++ {
+			for k := 0; k < rounds && !c.stop(); k++ {
 				i++
 				r := c.rng(i)
 				msg := genMsg(r, typ, true)
@@ -354,7 +354,7 @@ func genC01(c *Ctx) {
 		}
 	}
 	// stat records on their own
-	for k := 0; k < c.scale(400, 8000); k++ {
+	for k := 0; k < c.scale(400, 8000) && !c.stop(); k++ {
 		i++
 		r := c.rng(i)
 		dotu := r.Intn(2) == 0
@@ -364,7 +364,7 @@ func genC01(c *Ctx) {
 		c.run(fmt.Sprintf("dirrt %s %s %s", b2s(dotu), hexOr(genBytes(r, r.Intn(9))), st))
 	}
 	// the two-step Rread
-	for k := 0; k < c.scale(400, 8000); k++ {
+	for k := 0; k < c.scale(400, 8000) && !c.stop(); k++ {
 		i++
 		r := c.rng(i)
 		cnt := []int{0, 1, 2, 100, r.Intn(5000)}[r.Intn(5)]
@@ -408,7 +408,7 @@ func genC02(c *Ctx) {
 	reps := c.scale(2, 30)
 	for _, typ := range msgTypes {
 		for _, dotu := range []bool{false, true} {
-			for rep := 0; rep < reps; rep++ {
+			for rep := 0; rep < reps && !c.stop(); rep++ {
 				i++
 				r := c.rng(i)
 				pkt := canonical(r, dotu, typ)
@@ -478,7 +478,7 @@ func genC02(c *Ctx) {
 		}
 	}
 	// stat records: truncations, string-length edits
-	for k := 0; k < c.scale(20, 300); k++ {
+	for k := 0; k < c.scale(20, 300) && !c.stop(); k++ {
 		i++
 		r := c.rng(i)
 		dotu := r.Intn(2) == 0
@@ -500,7 +500,7 @@ func genC02(c *Ctx) {
 		}
 	}
 	// random bytes and random splices of valid packets
-	for k := 0; k < c.scale(3000, 150000); k++ {
+	for k := 0; k < c.scale(3000, 150000) && !c.stop(); k++ {
 		i++
 		r := c.rng(i)
 		dotu := r.Intn(2) == 0
